@@ -18,6 +18,23 @@ pub fn main(_args: &[String]) -> i32 {
     0
 }
 
+/// A dependency (sfio-rustls-config 0.4.0, server.rs:135) prints `client result: ..` to stdout whenever a TLS
+/// server verifies a client certificate. Result lines must be the only thing on stdout, so fd 1 is pointed at
+/// /dev/null for the duration of the run and the returned file (a dup of the real stdout) is used for results.
+pub fn private_stdout() -> std::fs::File {
+    use std::os::unix::io::FromRawFd;
+    unsafe {
+        let saved = libc::dup(1);
+        assert!(saved >= 0, "dup");
+        let path = std::ffi::CString::new("/dev/null").unwrap();
+        let null = libc::open(path.as_ptr(), libc::O_WRONLY);
+        assert!(null >= 0, "open /dev/null");
+        libc::dup2(null, 1);
+        libc::close(null);
+        std::fs::File::from_raw_fd(saved)
+    }
+}
+
 pub fn cstr(s: &str) -> CString {
     CString::new(s).expect("interior NUL")
 }
